@@ -23,6 +23,7 @@ import (
 	"fmt"
 	"math/rand"
 	"os"
+	"regexp"
 	"runtime"
 	"sort"
 	"strconv"
@@ -213,6 +214,9 @@ func cmdReplay(args []string) {
 						why = "same outcome but not identical to the response of the request run alone"
 					}
 					known := ""
+					if ok && unionMissOnly(lb.CanonResponse(res), alone[v.W+"|"+name]) {
+						known = "UnionMissNamesUnbound"
+					}
 					if s.g < len(v.Alt) && ri < len(v.Alt[s.g]) {
 						for _, alt := range v.Alt[s.g][ri] {
 							if ok2, _ := matches(rq.Resp[alt], res); ok2 {
@@ -452,6 +456,9 @@ func cmdStress(args []string) {
 					continue
 				}
 				known := ""
+				if unionMissOnly(got, want) {
+					known = "UnionMissNamesUnbound"
+				}
 				if lazy {
 					for _, alt := range kouts.Alt[where][rq.Name] {
 						if ok, _ := matches(ex.Uni.Reqs[rq.Name].Resp[alt], o.Results[0]); ok {
@@ -489,6 +496,23 @@ func minInt(a, b int) int {
 }
 
 // ------------------------------------------------------------------ main
+
+// Known finding UnionMissNamesUnbound: the error for a value that is no member of a union names the first member that has
+// no Go type bound yet and is located at that member's definition in the schema text, or - once every member is bound -
+// says that the value is no member, located at the field; which of them it is depends on what was resolved before.
+var unionMissMsg = regexp.MustCompile(`failed to determine union member \w+ implementation type\. Use @go directive|a \*?[\w.]+ is not a member of union \w+`)
+var canonLocs = regexp.MustCompile(`\\?"locations\\?":\[[^\]]*\],?`)
+
+// unionMissOnly reports whether two canonical responses differ only in the text and location of such errors.
+func unionMissOnly(a, b string) bool {
+	if a == b || !unionMissMsg.MatchString(a) || !unionMissMsg.MatchString(b) {
+		return false
+	}
+	norm := func(s string) string {
+		return canonLocs.ReplaceAllString(unionMissMsg.ReplaceAllString(s, "UNION-MISS"), "")
+	}
+	return norm(a) == norm(b)
+}
 
 func main() {
 	if len(os.Args) < 2 {
